@@ -36,15 +36,17 @@ def rand_expr_tree(rng, n_units, depth=3, n_cands=2):
 
 
 def build_expr(prov_mod, units, e):
-    """JSON tree -> real datascope Expression using the library's own operators"""
+    """JSON tree -> real datascope Expression using the library's own operators.  `units[pos]` yields the Unit at a position;
+    `units.ck(c)` (optional) maps a candidate INDEX to the candidate KEY the library compares with."""
+    ck = getattr(units, "ck", lambda c: c)
     if "eq" in e:
         u, c = e["eq"]
-        return units[u] == c
+        return units[u] == ck(c)
     if "conj" in e:
-        lits = [units[u] == c for u, c in e["conj"]]
+        lits = [units[u] == ck(c) for u, c in e["conj"]]
         return prov_mod.Conjunction(*lits)
     if "disj" in e:
-        return prov_mod.Disjunction(*[prov_mod.Conjunction(*[units[u] == c for u, c in cj]) for cj in e["disj"]])
+        return prov_mod.Disjunction(*[prov_mod.Conjunction(*[units[u] == ck(c) for u, c in cj]) for cj in e["disj"]])
     if "and" in e:
         a, b = e["and"]
         return build_expr(prov_mod, units, a) & build_expr(prov_mod, units, b)
